@@ -237,8 +237,11 @@ def run_check(modname, tier="quick", vseed=0, workers=None, scale=1.0, wall_limi
         "coverage": cov, "assumptions": list(check.ASSUMPTIONS),
         "wall_s": round(wall, 2), "violations": len(new_violations),
     }
-    os.makedirs(os.path.join(core.VERIF_DIR, "evidence"), exist_ok=True)
-    with open(os.path.join(core.VERIF_DIR, "evidence", check.ID + ".json"), "w") as f:
+    # trials against seeded changes write their evidence elsewhere (VERIF_EVIDENCE_DIR): the committed
+    # evidence must come from runs against /repo itself
+    evdir = os.environ.get("VERIF_EVIDENCE_DIR") or os.path.join(core.VERIF_DIR, "evidence")
+    os.makedirs(evdir, exist_ok=True)
+    with open(os.path.join(evdir, check.ID + ".json"), "w") as f:
         json.dump(ev, f, indent=1, sort_keys=True, default=repr)
         f.write("\n")
 
